@@ -88,6 +88,19 @@ Ideas in other directions (only where provably equivalent for every input that m
   - range checks written differently but accepting exactly the same values: `qos not in (0, 1, 2)`, `qos not in range(3)`, `not 0 <= qos <= 2`, `qos < 0 or qos > 2`, bounds as class constants (`MAX_QOS = 2`), a `_checkRange(value, lo, hi, exc)` helper, `min`/`max` clamps ONLY where provably not changing what is accepted;
   - what is stored for retransmission: the encoded packet kept under another name, a `_wire(request)` helper returning the bytes to write, the DUP patch done by a small `_markDup(request)` helper or with `|= 0x08`, `request.encoded` wrapped in `bytes()` at write time;
   - the loss path and the CONNACK path restructured: one loop over `(window, exception)` pairs, the clean/persistent decision computed once into a local, clean-up phases as private methods called in the same order, `list(w.values())` snapshots."""
+if mode == "neutral7":
+    mode = "neutral"
+    EXTRA = """IMPORTANT - be original: six earlier rounds of refactorings of this library already used the following reshapes, so do NOT make them the core of yours (they may appear incidentally); look for DIFFERENT, equally legitimate ways a maintainer might restructure the code:
+  - merged alarm-cancelling loops over chain(...) / chain.from_iterable / generator methods, per-entry try/except AttributeError, contextlib.suppress, `_markDup` / `_wire` / `_transmit` helpers, `_failWindow(window, reason, ...)`, handlers with early return, `_releaseFor`, `_newRequest(cls, **fields)`, validators as generators, tables of (predicate, exception) pairs, class-level state classes, properties for the per-address windows, `any()` over fresh generators in `_idInUse`, counted `while` in `makeId`;
+  - in pdu.py: named mask constants, `bool(flags & M)`, `(flags >> 1) & 3`, `_variablePart` / `fixedHeaderSize` helpers, `_assemble(header, *sections)`, `int.to_bytes` / `struct`, `divmod`, `bytearray((a, b))`, generator framer `_completePackets()`.
+Ideas in other directions (only where provably equivalent for every input that matters - argue it in NOTES.md):
+  - keepalive and CONNECT handling: `keepalive` normalised or named differently on its way into the request WITHOUT changing its value (a local alias, a `_connectRequest(...)` builder taking keyword arguments, the request built by a classmethod `CONNECT.fromArguments(...)`), the LoopingCall created by a small `_startKeepalive(period)` helper that creates, stores AND starts it, the PINGREQ deadline armed by `_expectPingresp()`;
+  - the CONNACK path: `mqttConnectionMade` split into `_restoreSession()` + `_announceConnection()` called in the SAME order (session code first, application hook last), the hook invoked through a local / `getattr` / a `_fire(name)` helper, the clean/persistent decision as a dict of bound methods keyed by the flag;
+  - buildProtocol: the per-address containers created by a `_slots(addr)` helper, `collections.deque` imported under another name or constructed through `self.queueFactory = deque` (still unbounded), `dict.setdefault` / `addr not in registry` tests, a namedtuple or small class bundling the six containers of an address ONLY if every access goes through it consistently;
+  - PUBLISH / PUBREL first byte in pdu.py built differently but identically: `flags = (dup << 3) | (qos << 1) | retain` computed once and or-ed onto 0x30 in BOTH the qos and the no-qos case where the original does, a `_publishFlags()` helper, `header[0] = 0x30; header[0] |= retain; if qos: header[0] |= ...` keeping exactly the bits each case had;
+  - subscribe()/unsubscribe() argument normalisation written as a small function returning the list of (topic, qos) pairs for the three accepted shapes (string + qos, one pair, list of pairs), `isinstance` chains reordered where exclusive, `list(topics)` copies ONLY where unobservable;
+  - identifier allocation: `makeId` as `itertools.islice`/`count` based search, `_idInUse` as a set built per call, the counter advanced by a helper `_nextCandidate()`; never returning 0 and never skipping the in-use test;
+  - timers: `callLater` wrapped by `_later(delay, fn, *args)`, retry callbacks bound with `functools.partial` or lambdas with default arguments, `alarm` handles swapped through a `_rearm(request, delay, callback)` that cancels nothing and only stores the new handle where the original did."""
 if mode == "break":
     used = []
     for f in sorted(glob.glob("/verif/seeded/%s-*/meta.json" % pid)):
